@@ -25,6 +25,7 @@ type SpecNode struct {
 }
 
 type Clause struct {
+	SiteKind string // site clause: requires, or maypanic (calls of this callee may panic in this function)
 	Local  bool // ensures clause not exported to callers
 	Kind   string // requires | ensures | invariant | assigns | nopanic | noreturn | pure | emits
 	Spawn  bool   // clause applies at `go f()` sites
@@ -198,6 +199,7 @@ func (cs *ContractSet) parseFile(path string, pkgPath string) {
 			c.Kind = kind
 			if c.Callee != "" {
 				c.Kind = "site"
+				c.SiteKind = kind
 			}
 			if strings.HasPrefix(m[1], "onpanic") {
 				// postcondition that also holds when the function lets a panic escape
@@ -253,6 +255,9 @@ func (cs *ContractSet) finishClause(c *Clause) {
 		}
 	case "nopanic", "noreturn", "pure", "inline", "trusted", "maypanic":
 	default:
+		if c.Kind == "site" && c.SiteKind == "maypanic" {
+			return
+		}
 		n, err := parseSpec(c.Text)
 		if err != nil {
 			cs.Errors = append(cs.Errors, fmt.Sprintf("%s:%d: %v in %q", c.File, c.Line, err, c.Text))
